@@ -648,13 +648,18 @@ def accumulate(grid, C, H, m_lo, m_hi):
     f = grid.flat(a[single])
     np.add.at(lo, f, m_lo[single])
     np.add.at(hi, f, m_hi[single])
-    multi = np.nonzero(~single & ~outside)[0]
-    for i in multi:
-        if m_hi[i] == 0:
-            continue
-        rng = [range(a[i, k], b[i, k] + 1) for k in range(3)]
-        for ijk in itertools.product(*rng):
-            hi[(ijk[0] * grid.n[1] + ijk[1]) * grid.n[2] + ijk[2]] += m_hi[i]
+    multi = np.nonzero(~single & ~outside & (m_hi != 0))[0]
+    if len(multi):
+        # add m_hi to every cell of the index box [a, b]: 3-D difference array + prefix sums
+        n0, n1, n2 = (int(x) for x in grid.n)
+        D = np.zeros((n0 + 1, n1 + 1, n2 + 1))
+        am, bm, w = a[multi], b[multi] + 1, m_hi[multi]
+        for s0, i0 in ((1, am[:, 0]), (-1, bm[:, 0])):
+            for s1, i1 in ((1, am[:, 1]), (-1, bm[:, 1])):
+                for s2, i2 in ((1, am[:, 2]), (-1, bm[:, 2])):
+                    np.add.at(D, (i0, i1, i2), s0 * s1 * s2 * w)
+        D = D.cumsum(axis=0).cumsum(axis=1).cumsum(axis=2)[:n0, :n1, :n2]
+        hi += D.reshape(-1)
     return lo, hi, int(outside.sum())
 
 
